@@ -171,6 +171,45 @@ func c16(c *Ctx) {
 	if total == 0 {
 		c.R.Undecided("R-lock", "no-sites", "analysis entry points", "-", "no Fan.SetPwm reachable from the analysis entry points (anchor unresolved)")
 	}
+
+	// ---- R-atomic: one analysis (RunInitializationSequence) holds the mutex without a gap ---------
+	// states: 0 = no fan write yet, 1 = analysis in progress, 2 = mutex released after the analysis began,
+	// 3 = fan driven again after such a release (another fan's analysis may have started in the gap)
+	aspec := ir.TSpec{
+		N: 4,
+		Instr: func(ins ssa.Instruction) []ir.Mask {
+			cc, ok := ins.(ssa.CallInstruction)
+			if !ok {
+				return nil
+			}
+			if isFanInvoke(cc, "SetPwm") && !restore[ins.Parent()] {
+				return []ir.Mask{ir.Bit(1), ir.Bit(1), ir.Bit(3), ir.Bit(3)}
+			}
+			if ir.CallName(cc) == "(*sync.Mutex).Unlock" && ir.Root(cc.Common().Args[0]) == lock {
+				return []ir.Mask{ir.Bit(0), ir.Bit(2), ir.Bit(2), ir.Bit(3)}
+			}
+			return nil
+		},
+		Edge:     spec.Edge,
+		Callees:  spec.Callees,
+		NoReturn: spec.NoReturn,
+	}
+	for _, entry := range inits {
+		ts := ir.NewTS(aspec)
+		bad := ""
+		ts.Run(entry, ir.Bit(0), func(fn *ssa.Function, ins ssa.Instruction, m ir.Mask) {
+			if cc, ok := ins.(ssa.CallInstruction); ok && isFanInvoke(cc, "SetPwm") && !restore[fn] && m.Has(2) {
+				bad = c.FK(fn) + " at " + c.P.Pos(ins.Pos())
+			}
+		})
+		key := c.FK(entry)
+		if bad != "" {
+			c.R.Bad("R-atomic", key, key, "-", "with runFanInitializationInParallel=false the initialisation mutex is released and re-acquired in the middle of one fan's analysis (fan driven again in "+bad+" after an Unlock): another fan's analysis can start in the gap, so two analyses are in progress at the same time")
+		} else {
+			c.R.Ok("R-atomic", key, key, c.P.Pos(entry.Pos()), "the mutex is held without a gap from the first to the last fan write of one analysis")
+		}
+	}
+	c.R.Require("R-atomic", 1)
 	c.R.Require("R-lock", 2)
 	_ = strings.HasPrefix
 }
